@@ -51,7 +51,9 @@ theorem c06_earlystop_failure_finishes_record (cfg : Cfg) (hc : cfg.esFailureFin
 
 /-! ### the code at the pinned commit violates the property (kernel-checked witnesses) -/
 
-def legacy : Cfg := { Cfg.fixed with suggestCatchesAll := false, shortDeliveryOk := false, esFailureFinishesOp := false }
+def legacy : Cfg :=
+  { Cfg.fixed with suggestCatchesAll := false, shortDeliveryOk := false, esFailureFinishesOp := false,
+                   resumesAbandonedOp := false }
 
 def isStale : Resp → Bool
   | .op _ o _ => !o.done
